@@ -189,9 +189,23 @@ static Verdict run_c12(const Case &c)
       wapi::verify(intact, e.key, pc, false);
     else if (warm == 2)
       wapi::decrypt(intact, e.key, pc);
+    else if (warm >= 3)
+    {
+      // ... or an operation that was REFUSED: decrypt / verify of the intact file with a wrong key, decrypt of bytes
+      // that are no wencry file (whatever a refused operation sets up before it gives up must not change what
+      // verify and decrypt say about the next file)
+      bytes wk = e.key;
+      wk[11] ^= 0x20;
+      if (warm == 3)
+        wapi::decrypt(intact, wk, pc);
+      else if (warm == 4)
+        wapi::verify(intact, wk, pc, false);
+      else
+        wapi::decrypt(expand(0xbadf00d, 90, 0), e.key, pc);
+    }
   };
   if (warm)
-    v.classes.push_back("after_warmup_on_intact_file");
+    v.classes.push_back(warm <= 2 ? "after_warmup_on_intact_file" : "after_a_refused_operation");
   ChildResult rv = run_in_child([&]() { warmup(); return wapi::verify(file, key, pc, true).ser(); });
   ChildResult rd = run_in_child([&]() { warmup(); return wapi::decrypt(file, key, pc).ser(); });
   if (rv.status == CH_TIMEOUT || rd.status == CH_TIMEOUT)
@@ -302,7 +316,7 @@ static Case gen_c12()
   else
     c.set("keykind", "right");
   c.seti("also_encrypt", g::coin(15) ? 1 : 0);
-  c.seti("warm", g::coin(50) ? g::range(1, 3) : 0);
+  c.seti("warm", g::coin(55) ? g::range(1, 6) : 0);
   return c;
 }
 
